@@ -182,6 +182,14 @@ func scenariosFor(prop string, thorough bool) []*scenario {
 			Seq: [][]txn.Prog{{W("W1", op("rmw", "a", 1, "+1")), R("R", op("get", "a", 1))}, {W("W2", op("update", "a", 2, "w2")), R("R1", op("get", "a", 2))}}}))
 		add(mkSeq(&scenario{Name: "write-then-read-two-stores", Stores: []txn.StoreSpec{store("a", 4, "node", 1, "x"), store("b", 4, "segment", 1, "y")},
 			Seq: [][]txn.Prog{{W("W", op("update", "a", 1, "n1"), op("update", "b", 1, "n2")), R("R2", op("get", "a", 1), op("get", "b", 1))}, {R("R1", op("get", "b", 1), op("get", "a", 1))}}}))
+		// two processes (separate L1 caches, shared L2 and folder): process 1 wrote the node earlier (its L1 holds the
+		// handle), process 0 then commits a newer version, the shared L2 loses its entries (cleared / expired), and
+		// process 1 reads and read-modify-writes the item again
+		P1 := func(p txn.Prog) txn.Prog { p.Proc = 1; return p }
+		for _, e := range []string{"clear-l2", "advance-2h"} {
+			add(mkSeq(&scenario{Name: "two-processes-stale-l1-after-" + e, MaxTime: time.Hour, Stores: []txn.StoreSpec{store("a", 4, "node", 1, "a", 2, "b")}, Env: []string{e},
+				Seq: [][]txn.Prog{{P1(W("W1", op("update", "a", 1, "p1"))), W("W2", op("update", "a", 1, "p0")), P1(R("R", op("get", "a", 1))), P1(W("W3", op("rmw", "a", 1, "+p1")))}, {R("R1", op("get", "a", 1))}}}))
+		}
 	case "C06":
 		add(&scenario{Name: "adds-and-removes", Stores: []txn.StoreSpec{store("a", 2, "node", 1, "a", 2, "b", 3, "c")},
 			Progs: []txn.Prog{W("T1", op("add", "a", 4, "t1"), op("remove", "a", 1)), W("T2", op("add", "a", 5, "t2"), op("add", "a", 6, "t2"))}})
